@@ -351,7 +351,7 @@ def run(R, env):
                     if ns == "inflight" and o["op"] == "save":
                         k, v = o["args"][2], o["args"][3]
                         ks = None
-                        for base, d in struct_deltas(v):
+                        for base, d in (shared.write_value_alternatives(prog, o, "inflight") or struct_deltas(v)):
                             if base[0] == "agg":
                                 ks = agg_field(base, "sequence")
                             elif ("sequence",) not in d and base[0] == "payload":
